@@ -203,11 +203,47 @@ def handle : Drv.Handler
                             maxDepth := r.maxDepth, visits := r.visits, early := false, stopped := false }
     -- unique_state_count of the simulation checker is its state_count
     pure ((showSt s).replace "(uniq 0)" s!"(uniq {r.stateCount})")
+  -- DFS with symmetry reduction: `rep` maps every state to its representative; key = rep
+  | "chk-sym", [g, ps, cfg, rep] => do
+    let g ← Graph.ofSExp? g
+    let ps ← ps.listOf? GProp.ofSExp?
+    let (cfg, fin) ← parseCfg cfg
+    let rep ← rep.nats?
+    let c : Case := { g, props := ps, cfg, finish := fin }
+    let P : Params Nat Nat Nat := { c.params with key := fun s => rep.getD s s }
+    pure (showSt (runSingle P .dfs (fuelFor g ps)))
+  | "o-chk-sym", [g, ps, cfg, rep, obs] => do
+    let g ← Graph.ofSExp? g
+    let ps ← ps.listOf? GProp.ofSExp?
+    let (cfg, fin) ← parseCfg cfg
+    let rep ← rep.nats?
+    let c : Case := { g, props := ps, cfg, finish := fin }
+    if !((g.closeStep g.reachList).all g.reachList.contains) then pure "oracle-closure-not-stabilised" else
+    match ← Obs.ofSExp? obs with
+    | none => pure "implementation-panicked"
+    | some o =>
+      let r := fun s => rep.getD s s
+      let reach := g.reachList
+      let lasts := o.visits.map lastOf
+      let initReps := g.initB.map r
+      let errs :=
+        (if o.visits.all g.isPathB then [] else ["visited-path-not-a-real-path-of-the-original-model"]) ++
+        oracleC03 c o ++
+        (if lasts.length ≤ reach.length then [] else ["more-states-evaluated-than-reachable"]) ++
+        (if initReps.eraseDups.length == initReps.length && (lasts.map r).eraseDups.length != lasts.length
+           then ["two-evaluated-states-in-one-symmetry-class-key"] else []) ++
+        (if completeRun c o then
+           (if reach.all (fun t => lasts.any (fun v => r v == r t)) then [] else ["symmetry-class-without-evaluated-state"]) ++
+           oracleC02 c o
+         else [])
+      pure (if errs.isEmpty then "ok" else " ".intercalate errs)
   | "o-chk", [.atom prop, .atom strat, g, ps, cfg, obs] => do
     let g ← Graph.ofSExp? g
     let ps ← ps.listOf? GProp.ofSExp?
     let (cfg, fin) ← parseCfg cfg
     let c : Case := { g, props := ps, cfg, finish := fin }
+    -- adequacy of the executable reachability (SR/Proofs/Checker/Spec.lean `reachList_iff`): the closure must be a fixpoint
+    if !((g.closeStep g.reachList).all g.reachList.contains) then pure "oracle-closure-not-stabilised" else
     match ← Obs.ofSExp? obs with
     | none => pure "implementation-panicked"
     | some o =>
